@@ -1,116 +1,15 @@
-/- GENERATED by harness/cmd/extract from the Go source of go-cose. Do not edit. -/
-namespace CoseModel.Facts
+/-
+  CoseProofs.FactsTie — the reviewed baseline of the syntactic facts the model was written against
+  (decision tables: every case clause of the listed functions; write sites), and one theorem per
+  table stating that the facts regenerated from the current source equal the baseline.  A change
+  to a case list, a guard, a called predicate or a first return expression of these functions
+  breaks the theorem of the property that relies on it.
+-/
+import CoseModel.Generated.Facts
+open CoseModel
 
-/-- integer constants of the package, by name -/
-def consts : List (String × Int) := [
-  ("AlgorithmES256", -7),
-  ("AlgorithmES384", -35),
-  ("AlgorithmES512", -36),
-  ("AlgorithmEd25519", -8),
-  ("AlgorithmEdDSA", -8),
-  ("AlgorithmPS256", -37),
-  ("AlgorithmPS384", -38),
-  ("AlgorithmPS512", -39),
-  ("AlgorithmRS256", -257),
-  ("AlgorithmRS384", -258),
-  ("AlgorithmRS512", -259),
-  ("AlgorithmReserved", 0),
-  ("AlgorithmSHA256", -16),
-  ("AlgorithmSHA384", -43),
-  ("AlgorithmSHA512", -44),
-  ("CBORTagSign1Message", 18),
-  ("CBORTagSignMessage", 98),
-  ("CWTClaimAudience", 3),
-  ("CWTClaimCWTID", 7),
-  ("CWTClaimConfirmation", 8),
-  ("CWTClaimExpirationTime", 4),
-  ("CWTClaimIssuedAt", 6),
-  ("CWTClaimIssuer", 1),
-  ("CWTClaimNotBefore", 5),
-  ("CWTClaimScope", 9),
-  ("CWTClaimSubject", 2),
-  ("CurveEd25519", 6),
-  ("CurveEd448", 7),
-  ("CurveP256", 1),
-  ("CurveP384", 2),
-  ("CurveP521", 3),
-  ("CurveReserved", 0),
-  ("CurveX25519", 4),
-  ("CurveX448", 5),
-  ("HeaderLabelAlgorithm", 1),
-  ("HeaderLabelCWTClaims", 15),
-  ("HeaderLabelContentType", 3),
-  ("HeaderLabelCounterSignature", 7),
-  ("HeaderLabelCounterSignature0", 9),
-  ("HeaderLabelCounterSignature0V2", 12),
-  ("HeaderLabelCounterSignatureV2", 11),
-  ("HeaderLabelCritical", 2),
-  ("HeaderLabelIV", 5),
-  ("HeaderLabelKeyID", 4),
-  ("HeaderLabelPartialIV", 6),
-  ("HeaderLabelPayloadHashAlgorithm", 258),
-  ("HeaderLabelPayloadLocation", 260),
-  ("HeaderLabelPayloadPreimageContentType", 259),
-  ("HeaderLabelType", 16),
-  ("HeaderLabelX5Bag", 32),
-  ("HeaderLabelX5Chain", 33),
-  ("HeaderLabelX5T", 34),
-  ("HeaderLabelX5U", 35),
-  ("KeyLabelEC2Curve", -1),
-  ("KeyLabelEC2D", -4),
-  ("KeyLabelEC2X", -2),
-  ("KeyLabelEC2Y", -3),
-  ("KeyLabelOKPCurve", -1),
-  ("KeyLabelOKPD", -4),
-  ("KeyLabelOKPX", -2),
-  ("KeyLabelSymmetricK", -1),
-  ("KeyOpDecrypt", 4),
-  ("KeyOpDeriveBits", 8),
-  ("KeyOpDeriveKey", 7),
-  ("KeyOpEncrypt", 3),
-  ("KeyOpMACCreate", 9),
-  ("KeyOpMACVerify", 10),
-  ("KeyOpReserved", 0),
-  ("KeyOpSign", 1),
-  ("KeyOpUnwrapKey", 6),
-  ("KeyOpVerify", 2),
-  ("KeyOpWrapKey", 5),
-  ("KeyTypeEC2", 2),
-  ("KeyTypeOKP", 1),
-  ("KeyTypeReserved", 0),
-  ("KeyTypeSymmetric", 4),
-  ("keyLabelAlgorithm", 3),
-  ("keyLabelBaseIV", 5),
-  ("keyLabelKeyID", 2),
-  ("keyLabelKeyOps", 4),
-  ("keyLabelKeyType", 1)
-]
+namespace Expected
 
-def sign1MessagePrefix : List Nat := [210, 132]
-def signMessagePrefix : List Nat := [216, 98, 132]
-def signaturePrefix : List Nat := [131]
-
-/-- context strings of the Sig_structure builders, in source order -/
-def ctxSign1 : List String := ["Signature1"]
-def ctxSignature : List String := ["Signature"]
-def ctxCountersign : List String := ["CounterSignature0", "CounterSignature", "CounterSignature0V2", "CounterSignatureV2"]
-def abbrevSignProtected : List Nat := [64]
-def abbrevSignProtectedVerify : List Nat := [64]
-
-/-- Algorithm.hashFunc: (case constant, returned hash) -/
-def hashTable : List (String × String) := [
-  ("AlgorithmPS256", "crypto.SHA256"),
-  ("AlgorithmES256", "crypto.SHA256"),
-  ("AlgorithmSHA256", "crypto.SHA256"),
-  ("AlgorithmPS384", "crypto.SHA384"),
-  ("AlgorithmES384", "crypto.SHA384"),
-  ("AlgorithmSHA384", "crypto.SHA384"),
-  ("AlgorithmPS512", "crypto.SHA512"),
-  ("AlgorithmES512", "crypto.SHA512"),
-  ("AlgorithmSHA512", "crypto.SHA512")
-]
-
-/-- case clauses of validateHeaderParameters -/
 def table_validateHeaderParameters : List String := [
   "case HeaderLabelAlgorithm | calls canInt,canTstr,errors.New | guards  | ret errors.New(\"header parameter: alg: require int / tstr type\")",
   "case HeaderLabelCritical | calls ensureCritical,errors.New,fmt.Errorf | guards !protected | ret errors.New(\"header parameter: crit: not allowed\")",
@@ -125,7 +24,34 @@ def table_validateHeaderParameters : List String := [
   "case HeaderLabelCounterSignature0V2 | calls canBstr,errors.New | guards protected | ret errors.New(\"header parameter: Countersignature0 version 2: n"
 ]
 
-/-- case clauses of validateHashEnvelopeHeaders -/
+def table_normalizeLabel : List String := [
+  "case int | calls int64 | guards  | ret ",
+  "case int8 | calls int64 | guards  | ret ",
+  "case int16 | calls int64 | guards  | ret ",
+  "case int32 | calls int64 | guards  | ret ",
+  "case int64 | calls int64 | guards  | ret ",
+  "case uint | calls int64 | guards  | ret ",
+  "case uint8 | calls int64 | guards  | ret ",
+  "case uint16 | calls int64 | guards  | ret ",
+  "case uint32 | calls int64 | guards  | ret ",
+  "case uint64 | calls int64 | guards  | ret ",
+  "case string | calls  | guards  | ret ",
+  "case default | calls  | guards  | ret nil, false"
+]
+
+def table_canUint : List String := [
+  "case uint,uint8,uint16,uint32,uint64 | calls  | guards  | ret true",
+  "case int | calls  | guards  | ret v >= 0",
+  "case int8 | calls  | guards  | ret v >= 0",
+  "case int16 | calls  | guards  | ret v >= 0",
+  "case int32 | calls  | guards  | ret v >= 0",
+  "case int64 | calls  | guards  | ret v >= 0"
+]
+
+def table_canInt : List String := [
+  "case int,int8,int16,int32,int64,uint,uint8,uint16,uint32,uint64 | calls  | guards  | ret true"
+]
+
 def table_validateHashEnvelopeHeaders : List String := [
   "case HeaderLabelContentType | calls errors.New | guards  | ret errors.New(\"protected header parameter: content type: not al",
   "case HeaderLabelPayloadHashAlgorithm | calls canInt,errors.New | guards  | ret errors.New(\"protected header parameter: payload hash alg: re",
@@ -137,7 +63,16 @@ def table_validateHashEnvelopeHeaders : List String := [
   "case HeaderLabelPayloadLocation | calls errors.New | guards  | ret errors.New(\"unprotected header parameter: payload location: "
 ]
 
-/-- case clauses of NewSigner -/
+def table_ProtectedHeader_PayloadHashAlgorithm : List String := [
+  "case Algorithm | calls  | guards  | ret alg, nil",
+  "case int | calls Algorithm | guards  | ret Algorithm(alg), nil",
+  "case int8 | calls Algorithm | guards  | ret Algorithm(alg), nil",
+  "case int16 | calls Algorithm | guards  | ret Algorithm(alg), nil",
+  "case int32 | calls Algorithm | guards  | ret Algorithm(alg), nil",
+  "case int64 | calls Algorithm | guards  | ret Algorithm(alg), nil",
+  "case default | calls  | guards  | ret AlgorithmReserved, ErrInvalidAlgorithm"
+]
+
 def table_NewSigner : List String := [
   "case AlgorithmPS256,AlgorithmPS384,AlgorithmPS512 | calls errors.New,fmt.Errorf,key.Public,vk.N.BitLen | guards  | ret nil, fmt.Errorf(\"%v: %w\", alg, ErrInvalidPubKey)",
   "case AlgorithmES256,AlgorithmES384,AlgorithmES512 | calls fmt.Errorf,key.Public | guards  | ret nil, fmt.Errorf(\"%v: %w\", alg, ErrInvalidPubKey)",
@@ -147,7 +82,6 @@ def table_NewSigner : List String := [
   "case default | calls  | guards  | ret "
 ]
 
-/-- case clauses of NewVerifier -/
 def table_NewVerifier : List String := [
   "case AlgorithmPS256,AlgorithmPS384,AlgorithmPS512 | calls errors.New,fmt.Errorf,vk.N.BitLen | guards  | ret nil, fmt.Errorf(\"%v: %w\", alg, ErrInvalidPubKey)",
   "case AlgorithmES256,AlgorithmES384,AlgorithmES512 | calls err.Error,fmt.Errorf,vk.ECDH | guards  | ret nil, fmt.Errorf(\"%v: %w\", alg, ErrInvalidPubKey)",
@@ -157,7 +91,6 @@ def table_NewVerifier : List String := [
   "case default | calls  | guards  | ret "
 ]
 
-/-- case clauses of Key.deriveAlgorithm -/
 def table_Key_deriveAlgorithm : List String := [
   "case KeyTypeEC2 | calls k.EC2 | guards  | ret ",
   "case CurveP256 | calls  | guards  | ret AlgorithmES256, nil",
@@ -170,14 +103,12 @@ def table_Key_deriveAlgorithm : List String := [
   "case default | calls fmt.Errorf,k.Type.String | guards  | ret AlgorithmReserved, fmt.Errorf(\"unexpected key type %q\", k.Ty"
 ]
 
-/-- case clauses of curveSize -/
 def table_curveSize : List String := [
   "case CurveP256 | calls elliptic.P256,elliptic.P256().Params | guards  | ret ",
   "case CurveP384 | calls elliptic.P384,elliptic.P384().Params | guards  | ret ",
   "case CurveP521 | calls elliptic.P521,elliptic.P521().Params | guards  | ret "
 ]
 
-/-- case clauses of KeyOpFromString -/
 def table_KeyOpFromString : List String := [
   "case \"sign\" | calls  | guards  | ret KeyOpSign, true",
   "case \"verify\" | calls  | guards  | ret KeyOpVerify, true",
@@ -190,7 +121,6 @@ def table_KeyOpFromString : List String := [
   "case default | calls  | guards  | ret KeyOpReserved, false"
 ]
 
-/-- case clauses of Key.validate -/
 def table_Key_validate : List String := [
   "case KeyTypeEC2 | calls curveSize,k.EC2,len | guards crv == CurveReserved || (len(x) == 0 && len(y) == 0 && len(d) == 0),len(x) > size || len(y) > size || len(d) > size | ret errReqParamsMissing",
   "case KeyOpVerify | calls len | guards len(x) == 0 || len(y) == 0 | ret ErrEC2NoPub",
@@ -207,7 +137,15 @@ def table_Key_validate : List String := [
   "case default | calls  | guards  | ret "
 ]
 
-/-- case clauses of ProtectedHeader.Algorithm -/
+def table_Key_UnmarshalCBOR : List String := [
+  "case int64 | calls KeyOp | guards  | ret ",
+  "case string | calls KeyOpFromString,fmt.Errorf | guards  | ret fmt.Errorf(\"key_ops: unknown entry value %q\", op)",
+  "case default | calls fmt.Errorf | guards  | ret fmt.Errorf(\"key_ops: invalid entry type %T\", op)",
+  "case int64 | calls Curve,fmt.Errorf | guards  | ret fmt.Errorf(\"crv: invalid type: expected int64, got %T\", v)",
+  "case string | calls  | guards  | ret ",
+  "case default | calls fmt.Errorf | guards  | ret fmt.Errorf(\"invalid label type %T\", lbl)"
+]
+
 def table_ProtectedHeader_Algorithm : List String := [
   "case Algorithm | calls  | guards  | ret alg, nil",
   "case int | calls Algorithm | guards  | ret Algorithm(alg), nil",
@@ -219,49 +157,16 @@ def table_ProtectedHeader_Algorithm : List String := [
   "case default | calls  | guards  | ret AlgorithmReserved, ErrInvalidAlgorithm"
 ]
 
-/-- case clauses of ProtectedHeader.PayloadHashAlgorithm -/
-def table_ProtectedHeader_PayloadHashAlgorithm : List String := [
-  "case Algorithm | calls  | guards  | ret alg, nil",
-  "case int | calls Algorithm | guards  | ret Algorithm(alg), nil",
-  "case int8 | calls Algorithm | guards  | ret Algorithm(alg), nil",
-  "case int16 | calls Algorithm | guards  | ret Algorithm(alg), nil",
-  "case int32 | calls Algorithm | guards  | ret Algorithm(alg), nil",
-  "case int64 | calls Algorithm | guards  | ret Algorithm(alg), nil",
-  "case default | calls  | guards  | ret AlgorithmReserved, ErrInvalidAlgorithm"
+def table_Headers_ensureSigningAlgorithm : List String := [
+  "case nil | calls fmt.Errorf | guards  | ret fmt.Errorf(\"%w: signer %v: header %v\", ErrAlgorithmMismatch,",
+  "case ErrAlgorithmNotFound | calls h.Protected.SetAlgorithm,len,make | guards len(external) > 0 | ret nil"
 ]
 
-/-- case clauses of normalizeLabel -/
-def table_normalizeLabel : List String := [
-  "case int | calls int64 | guards  | ret ",
-  "case int8 | calls int64 | guards  | ret ",
-  "case int16 | calls int64 | guards  | ret ",
-  "case int32 | calls int64 | guards  | ret ",
-  "case int64 | calls int64 | guards  | ret ",
-  "case uint | calls int64 | guards  | ret ",
-  "case uint8 | calls int64 | guards  | ret ",
-  "case uint16 | calls int64 | guards  | ret ",
-  "case uint32 | calls int64 | guards  | ret ",
-  "case uint64 | calls int64 | guards  | ret ",
-  "case string | calls  | guards  | ret ",
-  "case default | calls  | guards  | ret nil, false"
+def table_Headers_ensureVerificationAlgorithm : List String := [
+  "case nil | calls fmt.Errorf | guards  | ret fmt.Errorf(\"%w: verifier %v: header %v\", ErrAlgorithmMismatc",
+  "case ErrAlgorithmNotFound | calls len | guards len(external) > 0 | ret nil"
 ]
 
-/-- case clauses of canUint -/
-def table_canUint : List String := [
-  "case uint,uint8,uint16,uint32,uint64 | calls  | guards  | ret true",
-  "case int | calls  | guards  | ret v >= 0",
-  "case int8 | calls  | guards  | ret v >= 0",
-  "case int16 | calls  | guards  | ret v >= 0",
-  "case int32 | calls  | guards  | ret v >= 0",
-  "case int64 | calls  | guards  | ret v >= 0"
-]
-
-/-- case clauses of canInt -/
-def table_canInt : List String := [
-  "case int,int8,int16,int32,int64,uint,uint8,uint16,uint32,uint64 | calls  | guards  | ret true"
-]
-
-/-- case clauses of countersignToBeSigned -/
 def table_countersignToBeSigned : List String := [
   "case *SignMessage | calls countersignToBeSigned | guards  | ret countersignToBeSigned(abbreviated, *t, signProtected, extern",
   "case SignMessage | calls errors.New,len,t.Headers.MarshalProtected | guards len(t.Signatures) == 0 | ret nil, errors.New(\"SignMessage has no signatures yet\")",
@@ -274,74 +179,6 @@ def table_countersignToBeSigned : List String := [
   "case default | calls fmt.Errorf | guards  | ret nil, fmt.Errorf(\"unsupported target %T\", target)"
 ]
 
-/-- case clauses of Headers.ensureSigningAlgorithm -/
-def table_Headers_ensureSigningAlgorithm : List String := [
-  "case nil | calls fmt.Errorf | guards  | ret fmt.Errorf(\"%w: signer %v: header %v\", ErrAlgorithmMismatch,",
-  "case ErrAlgorithmNotFound | calls h.Protected.SetAlgorithm,len,make | guards len(external) > 0 | ret nil"
-]
-
-/-- case clauses of Headers.ensureVerificationAlgorithm -/
-def table_Headers_ensureVerificationAlgorithm : List String := [
-  "case nil | calls fmt.Errorf | guards  | ret fmt.Errorf(\"%w: verifier %v: header %v\", ErrAlgorithmMismatc",
-  "case ErrAlgorithmNotFound | calls len | guards len(external) > 0 | ret nil"
-]
-
-/-- case clauses of Key.UnmarshalCBOR -/
-def table_Key_UnmarshalCBOR : List String := [
-  "case int64 | calls KeyOp | guards  | ret ",
-  "case string | calls KeyOpFromString,fmt.Errorf | guards  | ret fmt.Errorf(\"key_ops: unknown entry value %q\", op)",
-  "case default | calls fmt.Errorf | guards  | ret fmt.Errorf(\"key_ops: invalid entry type %T\", op)",
-  "case int64 | calls Curve,fmt.Errorf | guards  | ret fmt.Errorf(\"crv: invalid type: expected int64, got %T\", v)",
-  "case string | calls  | guards  | ret ",
-  "case default | calls fmt.Errorf | guards  | ret fmt.Errorf(\"invalid label type %T\", lbl)"
-]
-
-/-- single-value type assertions, slice / index expressions and explicit panics, by (function, expression) -/
-def panicSites : List String := [
-  "Key.PrivateKey: buf[32:]",
-  "Key.UnmarshalCBOR: k.Ops[i]",
-  "Key.UnmarshalCBOR: k.Ops[i]",
-  "NewKeyFromPrivate: sk[32:]",
-  "NewKeyFromPrivate: sk[:32]",
-  "ProtectedHeader.Critical: value.([]any)",
-  "ProtectedHeader.UnmarshalCBOR: encoded[0]",
-  "Sign1Message.UnmarshalCBOR: data[1:]",
-  "SignMessage.Sign: signers[i]",
-  "SignMessage.UnmarshalCBOR: data[2:]",
-  "SignMessage.Verify: verifiers[i]",
-  "Signature.Sign: protected[0]",
-  "Signature.Verify: protected[0]",
-  "UnprotectedHeader.UnmarshalCBOR: data[0]",
-  "UntaggedSign1Message.UnmarshalCBOR: data[0]",
-  "UntaggedSign1Message.UnmarshalCBOR: sign1MessagePrefix[1]",
-  "byteString.UnmarshalCBOR: data[0]",
-  "decodeECDSASignature: sig[:n]",
-  "decodeECDSASignature: sig[n:]",
-  "deterministicBinaryString: data[0]",
-  "deterministicBinaryString: data[0]",
-  "deterministicBinaryString: data[1]",
-  "deterministicBinaryString: data[1]",
-  "deterministicBinaryString: data[1]",
-  "deterministicBinaryString: data[1]",
-  "deterministicBinaryString: data[2]",
-  "deterministicBinaryString: data[2]",
-  "deterministicBinaryString: data[3]",
-  "deterministicBinaryString: data[4]",
-  "encodeECDSASignature: sig[:n]",
-  "encodeECDSASignature: sig[n:]",
-  "headerLabelValidator.UnmarshalCBOR: data[0]",
-  "init: panic(...)",
-  "init: panic(...)",
-  "init: panic(...)",
-  "validateHeaderParameters: v[0]",
-  "validateHeaderParameters: v[0]",
-  "validateHeaderParameters: v[len(v)-1]",
-  "validateHeaderParameters: v[len(v)-1]",
-  "validateHeaderParameters: value.(string)",
-  "validateHeaderParameters: value.(string)"
-]
-
-/-- assignments through a field, index or dereference, by (function, target) -/
 def writeSites : List String := [
   "Countersignature.Sign: s.Signature",
   "Headers.ensureSigningAlgorithm: h.Protected",
@@ -393,4 +230,61 @@ def writeSites : List String := [
   "validateHeaderParameters: existing[label]"
 ]
 
-end CoseModel.Facts
+end Expected
+
+namespace C13
+/-- source facts `table_validateHeaderParameters` equal the reviewed baseline -/
+theorem facts_table_validateHeaderParameters : Facts.table_validateHeaderParameters = Expected.table_validateHeaderParameters := rfl
+/-- source facts `table_normalizeLabel` equal the reviewed baseline -/
+theorem facts_table_normalizeLabel : Facts.table_normalizeLabel = Expected.table_normalizeLabel := rfl
+/-- source facts `table_canUint` equal the reviewed baseline -/
+theorem facts_table_canUint : Facts.table_canUint = Expected.table_canUint := rfl
+/-- source facts `table_canInt` equal the reviewed baseline -/
+theorem facts_table_canInt : Facts.table_canInt = Expected.table_canInt := rfl
+end C13
+
+namespace C12
+/-- source facts `table_validateHashEnvelopeHeaders` equal the reviewed baseline -/
+theorem facts_table_validateHashEnvelopeHeaders : Facts.table_validateHashEnvelopeHeaders = Expected.table_validateHashEnvelopeHeaders := rfl
+/-- source facts `table_ProtectedHeader_PayloadHashAlgorithm` equal the reviewed baseline -/
+theorem facts_table_ProtectedHeader_PayloadHashAlgorithm : Facts.table_ProtectedHeader_PayloadHashAlgorithm = Expected.table_ProtectedHeader_PayloadHashAlgorithm := rfl
+end C12
+
+namespace C17
+/-- source facts `table_NewSigner` equal the reviewed baseline -/
+theorem facts_table_NewSigner : Facts.table_NewSigner = Expected.table_NewSigner := rfl
+/-- source facts `table_NewVerifier` equal the reviewed baseline -/
+theorem facts_table_NewVerifier : Facts.table_NewVerifier = Expected.table_NewVerifier := rfl
+end C17
+
+namespace C15
+/-- source facts `table_Key_deriveAlgorithm` equal the reviewed baseline -/
+theorem facts_table_Key_deriveAlgorithm : Facts.table_Key_deriveAlgorithm = Expected.table_Key_deriveAlgorithm := rfl
+/-- source facts `table_curveSize` equal the reviewed baseline -/
+theorem facts_table_curveSize : Facts.table_curveSize = Expected.table_curveSize := rfl
+/-- source facts `table_KeyOpFromString` equal the reviewed baseline -/
+theorem facts_table_KeyOpFromString : Facts.table_KeyOpFromString = Expected.table_KeyOpFromString := rfl
+/-- source facts `table_Key_validate` equal the reviewed baseline -/
+theorem facts_table_Key_validate : Facts.table_Key_validate = Expected.table_Key_validate := rfl
+/-- source facts `table_Key_UnmarshalCBOR` equal the reviewed baseline -/
+theorem facts_table_Key_UnmarshalCBOR : Facts.table_Key_UnmarshalCBOR = Expected.table_Key_UnmarshalCBOR := rfl
+end C15
+
+namespace C04
+/-- source facts `table_ProtectedHeader_Algorithm` equal the reviewed baseline -/
+theorem facts_table_ProtectedHeader_Algorithm : Facts.table_ProtectedHeader_Algorithm = Expected.table_ProtectedHeader_Algorithm := rfl
+/-- source facts `table_Headers_ensureSigningAlgorithm` equal the reviewed baseline -/
+theorem facts_table_Headers_ensureSigningAlgorithm : Facts.table_Headers_ensureSigningAlgorithm = Expected.table_Headers_ensureSigningAlgorithm := rfl
+/-- source facts `table_Headers_ensureVerificationAlgorithm` equal the reviewed baseline -/
+theorem facts_table_Headers_ensureVerificationAlgorithm : Facts.table_Headers_ensureVerificationAlgorithm = Expected.table_Headers_ensureVerificationAlgorithm := rfl
+end C04
+
+namespace C10
+/-- source facts `table_countersignToBeSigned` equal the reviewed baseline -/
+theorem facts_table_countersignToBeSigned : Facts.table_countersignToBeSigned = Expected.table_countersignToBeSigned := rfl
+end C10
+
+namespace C18
+/-- source facts `writeSites` equal the reviewed baseline -/
+theorem facts_writeSites : Facts.writeSites = Expected.writeSites := rfl
+end C18
